@@ -172,6 +172,10 @@ def _r1(run, prog):
             return Iv(e.value, e.value, True, True) if e.value == 0 else None
         if isinstance(e, ast.Call) and dotted(e.func) in ('fmod', 'libc.math.fmod') and len(e.args) == 2 and norm(e.args[1]) == p:
             return Iv(-1, 1, False, False)
+        if isinstance(e, ast.BinOp) and isinstance(e.op, ast.Sub) and norm(e.left) == x and norm(e.right).replace(' ', '') in (
+                '%s*floor(%s/%s)' % (p, x, p), 'floor(%s/%s)*%s' % (x, p, p)):
+            # x - p*floor(x/p): exactly in [0, p), but the subtraction rounds: for a tiny negative x the result is p itself
+            return Iv(0, 1, True, True)
         if isinstance(e, ast.BinOp) and isinstance(e.op, ast.Add):
             a, b = ev(e.left, env), ev(e.right, env)
             if a == 'p' and isinstance(b, Iv):
